@@ -235,6 +235,13 @@ def rule_indent_state(rep: Report, tz, tk) -> None:
 			k = unparse(n.right)
 			ok = k == f'{cparam}.nest' or any(k in (f'{cparam}.nest - {lv}', f'({cparam}.nest - {lv})') for lv in level)
 			r.check(ok, f'dedent-count:{k[:50]}', (TOKENIZER_PY, n.lineno), f'DEDENT tokens are emitted `{k}` times; closing blocks needs (current level - level of the new line) of them (all open levels at EOF)', unparse(n))
+	# INDENT multiplicity: one INDENT opens one level, so a line break that raises the level by k must emit k of them (or the level model must make k == 1)
+	for n in nodes(fx, ast.Return):
+		if n.value is None or not has_call(n.value, 'to_indent'):
+			continue
+		multiplied = any(isinstance(x, ast.BinOp) and isinstance(x.op, ast.Mult) and has_call(x.left, 'to_indent') for x in ast.walk(n.value))
+		stack_model = any(isinstance(x, ast.Call) and isinstance(x.func, ast.Attribute) and x.func.attr in ('append', 'push') and 'indent' in unparse(x).lower() for x in ast.walk(fx))
+		r.check(multiplied or stack_model, 'indent-count', (TOKENIZER_PY, n.lineno), 'a line break that raises the level emits exactly ONE INDENT while the level is assigned Context.to_nest(width) = width / first indent unit, which can jump by more than one (2 columns, then 6): the matching dedent emits (old - new) DEDENTs, so `if a:\\n  b\\n  if c:\\n      d\\n  e\\nf` gets 2 INDENT but 3 DEDENT (CPython: 2 and 2); levels need the indentation stack CPython uses, or one INDENT per level', unparse(n)[:100])
 	dedent_lists = [n for n in nodes(fx, ast.BinOp) if isinstance(n.op, ast.Mult) and has_call(n.left, 'to_dedent')]
 	if not dedent_lists:
 		singles = [n for n in nodes(fx, ast.Return) if n.value is not None and has_call(n.value, 'to_dedent')]
